@@ -625,7 +625,7 @@ fn run_scenarios(ctx: &Ctx, rng: Rng, rep: &mut Report, kind: &str, count: u64, 
             Sup::Hang(diag) => {
                 let sig = format!("hang/{}", diag["phase"].as_str().unwrap_or("?"));
                 for p in props_on_hang {
-                    rep.violate(p, &sig, format!("{}: a call into the cache never returned (phase {}): every thread is asleep and nothing is pending that could wake it", flavor.name(), diag["phase"]), json!({"scenario": ctxj, "diagnosis": diag}));
+                    rep.violate(p, &sig, format!("{}: a call into the cache never returned (phase {}): {}", flavor.name(), diag["phase"], diag["kind"].as_str().unwrap_or("no thread can make progress")), json!({"scenario": ctxj, "diagnosis": diag}));
                 }
                 rep.count("hangs");
                 stop = true;
